@@ -22,10 +22,11 @@ import (
 
 // Mode selects the schedule of one call.
 type Mode struct {
-	Vector     []bool // decision per hand-off in order of occurrence: true = the lexer runs first
-	Default    bool   // decision for hand-offs beyond the vector
-	LateReturn bool   // park the caller at parse-exit until every lexer has exited or blocked
-	Timeout    time.Duration
+	Vector      []bool // decision per hand-off in order of occurrence: true = the lexer runs first
+	Default     bool   // decision for hand-offs beyond the vector
+	LateReturn  bool   // park the caller at parse-exit until every lexer has exited or blocked
+	HoldPopWait bool   // park a lexer that has decided to wait for a here-document until the parser has pushed it (the lexer is "descheduled" between its check and its wait)
+	Timeout     time.Duration
 }
 
 // Result describes what the controller saw.
@@ -156,6 +157,12 @@ func (s *session) event(ev int, l uintptr) {
 		st.popwait = true
 		if st.pushes == 0 {
 			s.res.PopWaitBeforePush = true
+		}
+		if s.mode.HoldPopWait {
+			n := st.pushes
+			s.cond.Broadcast()
+			s.wait(func() bool { return st.pushes > n })
+			return
 		}
 	case ePopWake:
 		st.lstate = stRunning
